@@ -1472,6 +1472,8 @@ theorem download_path {E : Env} {K : KeyEnv} (hE : EnvOK E) {w : World} (hw : WI
   | sl base issuer page =>
     simp only
     split
+    · exact ⟨hlog, FetchOK.fail _ _, rfl⟩
+    split
     · rename_i hba
       have hba' : base = w.a.base := by simpa using hba
       split
